@@ -40,9 +40,9 @@ Model/Otp.vos Model/Otp.vok Model/Otp.required_vos: Model/Otp.v Base/Prelude.vos
 Model/Ocra.vo Model/Ocra.glob Model/Ocra.v.beautified Model/Ocra.required_vo: Model/Ocra.v Base/Prelude.vo Hash/Sha.vo Generated/Tables.vo Model/Errors.vo Model/Decoder.vo Model/Derive.vo Model/Otp.vo
 Model/Ocra.vio: Model/Ocra.v Base/Prelude.vio Hash/Sha.vio Generated/Tables.vio Model/Errors.vio Model/Decoder.vio Model/Derive.vio Model/Otp.vio
 Model/Ocra.vos Model/Ocra.vok Model/Ocra.required_vos: Model/Ocra.v Base/Prelude.vos Hash/Sha.vos Generated/Tables.vos Model/Errors.vos Model/Decoder.vos Model/Derive.vos Model/Otp.vos
-Model/Runner.vo Model/Runner.glob Model/Runner.v.beautified Model/Runner.required_vo: Model/Runner.v Base/Prelude.vo Hash/Sha.vo Generated/Tables.vo Model/Errors.vo Model/Decoder.vo Model/Derive.vo Model/Otp.vo Model/Ocra.vo
-Model/Runner.vio: Model/Runner.v Base/Prelude.vio Hash/Sha.vio Generated/Tables.vio Model/Errors.vio Model/Decoder.vio Model/Derive.vio Model/Otp.vio Model/Ocra.vio
-Model/Runner.vos Model/Runner.vok Model/Runner.required_vos: Model/Runner.v Base/Prelude.vos Hash/Sha.vos Generated/Tables.vos Model/Errors.vos Model/Decoder.vos Model/Derive.vos Model/Otp.vos Model/Ocra.vos
+Model/Runner.vo Model/Runner.glob Model/Runner.v.beautified Model/Runner.required_vo: Model/Runner.v Base/Prelude.vo Hash/Sha.vo Generated/Tables.vo Model/Errors.vo Model/Decoder.vo Model/Derive.vo Model/Otp.vo Model/Ocra.vo Spec/Rfc4226.vo Spec/Rfc6287.vo
+Model/Runner.vio: Model/Runner.v Base/Prelude.vio Hash/Sha.vio Generated/Tables.vio Model/Errors.vio Model/Decoder.vio Model/Derive.vio Model/Otp.vio Model/Ocra.vio Spec/Rfc4226.vio Spec/Rfc6287.vio
+Model/Runner.vos Model/Runner.vok Model/Runner.required_vos: Model/Runner.v Base/Prelude.vos Hash/Sha.vos Generated/Tables.vos Model/Errors.vos Model/Decoder.vos Model/Derive.vos Model/Otp.vos Model/Ocra.vos Spec/Rfc4226.vos Spec/Rfc6287.vos
 Extract/Extract.vo Extract/Extract.glob Extract/Extract.v.beautified Extract/Extract.required_vo: Extract/Extract.v Model/Runner.vo
 Extract/Extract.vio: Extract/Extract.v Model/Runner.vio
 Extract/Extract.vos Extract/Extract.vok Extract/Extract.required_vos: Extract/Extract.v Model/Runner.vos
@@ -70,3 +70,18 @@ Properties/C03.vos Properties/C03.vok Properties/C03.required_vos: Properties/C0
 Properties/C04.vo Properties/C04.glob Properties/C04.v.beautified Properties/C04.required_vo: Properties/C04.v Base/Prelude.vo Hash/Sha.vo Generated/Tables.vo Model/Decoder.vo Model/Derive.vo Model/Otp.vo Spec/Rfc4226.vo Proofs/DeriveProofs.vo Proofs/OtpProofs.vo Model/Errors.vo
 Properties/C04.vio: Properties/C04.v Base/Prelude.vio Hash/Sha.vio Generated/Tables.vio Model/Decoder.vio Model/Derive.vio Model/Otp.vio Spec/Rfc4226.vio Proofs/DeriveProofs.vio Proofs/OtpProofs.vio Model/Errors.vio
 Properties/C04.vos Properties/C04.vok Properties/C04.required_vos: Properties/C04.v Base/Prelude.vos Hash/Sha.vos Generated/Tables.vos Model/Decoder.vos Model/Derive.vos Model/Otp.vos Spec/Rfc4226.vos Proofs/DeriveProofs.vos Proofs/OtpProofs.vos Model/Errors.vos
+Spec/Rfc6287.vo Spec/Rfc6287.glob Spec/Rfc6287.v.beautified Spec/Rfc6287.required_vo: Spec/Rfc6287.v Base/Prelude.vo Hash/Sha.vo Spec/Rfc4226.vo
+Spec/Rfc6287.vio: Spec/Rfc6287.v Base/Prelude.vio Hash/Sha.vio Spec/Rfc4226.vio
+Spec/Rfc6287.vos Spec/Rfc6287.vok Spec/Rfc6287.required_vos: Spec/Rfc6287.v Base/Prelude.vos Hash/Sha.vos Spec/Rfc4226.vos
+Proofs/OcraProofs.vo Proofs/OcraProofs.glob Proofs/OcraProofs.v.beautified Proofs/OcraProofs.required_vo: Proofs/OcraProofs.v Base/Prelude.vo Hash/Sha.vo Generated/Tables.vo Model/Errors.vo Model/Decoder.vo Model/Derive.vo Model/Otp.vo Model/Ocra.vo Spec/Rfc4226.vo Spec/Rfc6287.vo Proofs/BitLemmas.vo Proofs/DeriveProofs.vo Proofs/OtpProofs.vo
+Proofs/OcraProofs.vio: Proofs/OcraProofs.v Base/Prelude.vio Hash/Sha.vio Generated/Tables.vio Model/Errors.vio Model/Decoder.vio Model/Derive.vio Model/Otp.vio Model/Ocra.vio Spec/Rfc4226.vio Spec/Rfc6287.vio Proofs/BitLemmas.vio Proofs/DeriveProofs.vio Proofs/OtpProofs.vio
+Proofs/OcraProofs.vos Proofs/OcraProofs.vok Proofs/OcraProofs.required_vos: Proofs/OcraProofs.v Base/Prelude.vos Hash/Sha.vos Generated/Tables.vos Model/Errors.vos Model/Decoder.vos Model/Derive.vos Model/Otp.vos Model/Ocra.vos Spec/Rfc4226.vos Spec/Rfc6287.vos Proofs/BitLemmas.vos Proofs/DeriveProofs.vos Proofs/OtpProofs.vos
+Properties/C05.vo Properties/C05.glob Properties/C05.v.beautified Properties/C05.required_vo: Properties/C05.v Base/Prelude.vo Hash/Sha.vo Generated/Tables.vo Model/Decoder.vo Model/Derive.vo Model/Otp.vo Model/Ocra.vo Spec/Rfc4226.vo Spec/Rfc6287.vo Proofs/DeriveProofs.vo Proofs/OtpProofs.vo Proofs/OcraProofs.vo Model/Errors.vo
+Properties/C05.vio: Properties/C05.v Base/Prelude.vio Hash/Sha.vio Generated/Tables.vio Model/Decoder.vio Model/Derive.vio Model/Otp.vio Model/Ocra.vio Spec/Rfc4226.vio Spec/Rfc6287.vio Proofs/DeriveProofs.vio Proofs/OtpProofs.vio Proofs/OcraProofs.vio Model/Errors.vio
+Properties/C05.vos Properties/C05.vok Properties/C05.required_vos: Properties/C05.v Base/Prelude.vos Hash/Sha.vos Generated/Tables.vos Model/Decoder.vos Model/Derive.vos Model/Otp.vos Model/Ocra.vos Spec/Rfc4226.vos Spec/Rfc6287.vos Proofs/DeriveProofs.vos Proofs/OtpProofs.vos Proofs/OcraProofs.vos Model/Errors.vos
+Properties/C06.vo Properties/C06.glob Properties/C06.v.beautified Properties/C06.required_vo: Properties/C06.v Base/Prelude.vo Hash/Sha.vo Generated/Tables.vo Model/Decoder.vo Model/Derive.vo Model/Otp.vo Model/Ocra.vo Spec/Rfc4226.vo Spec/Rfc6287.vo Proofs/DeriveProofs.vo Proofs/OtpProofs.vo Proofs/OcraProofs.vo Model/Errors.vo
+Properties/C06.vio: Properties/C06.v Base/Prelude.vio Hash/Sha.vio Generated/Tables.vio Model/Decoder.vio Model/Derive.vio Model/Otp.vio Model/Ocra.vio Spec/Rfc4226.vio Spec/Rfc6287.vio Proofs/DeriveProofs.vio Proofs/OtpProofs.vio Proofs/OcraProofs.vio Model/Errors.vio
+Properties/C06.vos Properties/C06.vok Properties/C06.required_vos: Properties/C06.v Base/Prelude.vos Hash/Sha.vos Generated/Tables.vos Model/Decoder.vos Model/Derive.vos Model/Otp.vos Model/Ocra.vos Spec/Rfc4226.vos Spec/Rfc6287.vos Proofs/DeriveProofs.vos Proofs/OtpProofs.vos Proofs/OcraProofs.vos Model/Errors.vos
+Properties/C14.vo Properties/C14.glob Properties/C14.v.beautified Properties/C14.required_vo: Properties/C14.v Base/Prelude.vo Hash/Sha.vo Generated/Tables.vo Model/Decoder.vo Model/Derive.vo Model/Otp.vo Model/Ocra.vo Spec/Rfc4226.vo Spec/Rfc6287.vo Proofs/DeriveProofs.vo Proofs/OtpProofs.vo Proofs/OcraProofs.vo Model/Errors.vo
+Properties/C14.vio: Properties/C14.v Base/Prelude.vio Hash/Sha.vio Generated/Tables.vio Model/Decoder.vio Model/Derive.vio Model/Otp.vio Model/Ocra.vio Spec/Rfc4226.vio Spec/Rfc6287.vio Proofs/DeriveProofs.vio Proofs/OtpProofs.vio Proofs/OcraProofs.vio Model/Errors.vio
+Properties/C14.vos Properties/C14.vok Properties/C14.required_vos: Properties/C14.v Base/Prelude.vos Hash/Sha.vos Generated/Tables.vos Model/Decoder.vos Model/Derive.vos Model/Otp.vos Model/Ocra.vos Spec/Rfc4226.vos Spec/Rfc6287.vos Proofs/DeriveProofs.vos Proofs/OtpProofs.vos Proofs/OcraProofs.vos Model/Errors.vos
